@@ -339,7 +339,10 @@ impl<T: Send + Sync + 'static> Puppet<T> {
             };
             match choose_opt(Kind::Dev, What::OnPull(s), &menu) {
                 opt::NOTHING => {},
-                opt::DEFER => with(|ex| ex.subs[s as usize].deferred += 1),
+                opt::DEFER => {
+                    with(|ex| ex.subs[s as usize].deferred += 1);
+                    rec(Ev::Defer(s));
+                },
                 c => self.emit(s, c),
             }
         }
